@@ -163,10 +163,14 @@ func (s *Server) handleConn(c *Conn) error {
 			cmd, arg, err := parseCmd(line)
 			if err != nil {
 				c.protocolError(501, EnhancedCode{5, 5, 2}, "Bad command")
-				continue
+			} else {
+				c.handle(cmd, arg)
 			}
-
-			c.handle(cmd, arg)
+			if c.isClosed() {
+				// QUIT, too many errors, a panic or Server.Close: commands
+				// that are already buffered must not be executed.
+				return nil
+			}
 		} else {
 			if err == io.EOF || errors.Is(err, net.ErrClosed) {
 				return nil
